@@ -151,7 +151,7 @@ class FixedCompanionMass(pm.Normal):
         **kwargs,
     ):
         if K_unit is not None:
-            sigma_K0 = sigma_K0.to_value(K_unit)
+            sigma_K0 = sigma_K0.to(K_unit)
         max_K = max_K.to(sigma_K0.unit)
 
         if hasattr(P, UNIT_ATTR_NAME):
